@@ -98,6 +98,9 @@ class Sys(e2.DevSys):
             for f in c["finds"]:
                 for ch in (0, 1):
                     acts.append(("find", ch) + tuple(f))
+        elif nfind == 1 and c.get("lifecycle") and self.started and self.stopped_at is not None:
+            # a second request from the same requester after a stop and a restart
+            acts.append(("find", 0) + tuple(c["finds"][0]))
         if c.get("lifecycle") and nfind == 0:
             if self.started:
                 acts += [("ann-stop",), ("stop+find", 0), ("stop+find", 1), ("connlost",)]
@@ -191,11 +194,12 @@ class Sys(e2.DevSys):
         for n, lo, hi, mode in expected:
             spec = self.specs[n]
             hit = None
-            for g in got:
-                e = g[2]
-                if (e[1], e[2], e[3]) == (spec[0], spec[1], spec[2]) and g[1] == REQ:
-                    hit = g
-                    break
+            mine = [g for g in got if (g[2][1], g[2][2], g[2][3]) == (spec[0], spec[1], spec[2]) and g[1] == REQ]
+            inwin = [g for g in mine if lo - r <= g[0] <= hi + r]
+            if inwin:
+                hit = inwin[0]
+            elif mine and mode == "must" and len(self.finds) == 1:
+                hit = mine[0]  # right answer at the wrong time: reported as a time violation below
             if hit is None:
                 if mode == "must":
                     self.viol("answer", "missing", f"instance {spec[:4]} did not answer; finds {self.finds}; unicast offers {uni}")
@@ -270,18 +274,24 @@ def restrict(thorough, cfg, devs, p, k):
             # a stop shortly after a find (while the delayed answer is pending)
             return p[2][0] in ("ann-stop", "connlost") and p[0] - devs[0][0] <= 0.1
         return False
+    if k == 4:
+        return [d[2][0] for d in devs] == ["find", "ann-stop", "ann-start"] and p[2][0] == "find" \
+            and cfg["frac"] == 0.0 and 0.125 < p[0] - devs[2][0] <= 0.3 and p[1] == "pre" \
+            and tuple(devs[0][2][2:]) == tuple(cfg["finds"][0]) and devs[1][0] - devs[0][0] <= 0.01 \
+            and (thorough or devs[0][0] <= 1.3)
     if k == 3:
         if [d[2][0] for d in devs] == ["find", "ann-stop"]:
             # restart while the answer to an earlier request is still pending
             return p[2][0] == "ann-start" and p[0] - devs[1][0] <= 0.07
-        return [d[2][0] for d in devs] == ["ann-stop", "ann-start"] and p[2][0] == "find" and p[0] - devs[1][0] <= 0.4
+        return [d[2][0] for d in devs] == ["ann-stop", "ann-start"] and p[2][0] == "find" and p[0] - devs[1][0] <= 0.4 \
+            and (thorough or tuple(p[2][2:]) in (tuple(cfg["finds"][0]), tuple(cfg["finds"][1])))
     return False
 
 
 def check(ctx):
     import functools
     allc = cfgs(ctx)
-    res, viols = e2.search(ctx, Sys, allc, 3, restrict=functools.partial(restrict, ctx.thorough))
+    res, viols = e2.search(ctx, Sys, allc, 4, restrict=functools.partial(restrict, ctx.thorough))
     samples = core.Samples()
     s, s2 = sids(ctx.seed)
     samples.add(dict(cfg="set C", devs=[[1.375, "post", ["find", 1, s, 0xFFFF, 2, 0xFFFFFFFF]]]), "wildcard find, multicast")
